@@ -1,5 +1,9 @@
 """C13 - well-formed requests never end in General Failure."""
 import logging
+import random
+import sys
+import threading
+import time
 
 from kmip.core import enums
 
@@ -16,8 +20,12 @@ def plan(tier):
         'level': 'exploration', 'shards': 16, 'budget_s': 60 if tier == 'quick' else 600,
         'rule': 'random and per-object-focused well-formed requests (built from the payload '
                 'classes, surviving encode+decode under the request version) over populated '
-                'stores; a cell is (operation, target kind, target state, version, outcome reason)',
-        'min_monitor': {'requests_wellformed': 500, 'engine_error_records_checked': 1},
+                'stores; a cell is (operation, target kind, target state, version, outcome reason); plus concurrent '
+                'histories: 2-4 clients of different protocol versions and identities send scripts of requests that '
+                'succeed when sent alone (checked first on a twin store) to one engine under sys.monitoring LINE yield '
+                'injection - none of them may end in General Failure or an escaping exception',
+        'min_monitor': {'requests_wellformed': 500, 'engine_error_records_checked': 1,
+                        'concurrent_requests_checked': 200},
         'assumptions': ['well-formed = constructed from kmip payload classes with in-range '
                         'enumerations and accepted by the server\'s own decoder',
                         'the fake identity tuple stands in for the TLS session'],
@@ -26,14 +34,164 @@ def plan(tier):
 
 def cases(tier, seed):
     n = 48 if tier == 'quick' else 640
-    return [{'hist': i} for i in range(n)]
+    m = 32 if tier == 'quick' else 400
+    return [{'hist': i} for i in range(n)] + [{'conc': i} for i in range(m)]
 
 
 def setup(ctx):
     ctx.cap = logwatch.attach(logwatch.ErrorCapture())
 
 
+# (group lists are left out: with one, the default policy refuses even the owner - the known C14 finding)
+CONC_CLIENTS = [(('alice', None), (1, 0)), (('bob', None), (2, 0)), (('carol', None), (1, 4)),
+                (('erin', None), (1, 2)), (('dave', None), (2, 0)), (('frank', []), (1, 1))]
+
+
+def script(rng, ci, version, n):
+    """Requests of one client that all succeed when nobody else talks to the server: the client works
+    on objects it creates itself (found again by name, the identifiers being unknown in advance)."""
+    out = []
+    for j in range(n):
+        name = 'c13c-%d-%d' % (ci, j)
+        tail = [rng.choice((rig.op_get(None), rig.op_get_attributes(None), rig.op_get_attribute_list(None)))
+                for _ in range(rng.randrange(1, 5))]
+        k = rng.randrange(5)
+        if k == 0:
+            out.append([rig.op_create(names=[name])] + tail)
+        elif k == 1:
+            out.append([rig.op_register('secret', rig.secret_data(b'c13c'), rig.common_attrs(names=[name]))] + tail)
+        elif k == 2:
+            out.append([rig.op_create(names=[name])])
+            out.append([rig.op_locate([rig.attr(enums.AttributeType.NAME, rig.name_value(name))])])
+        elif k == 3:
+            out.append([rig.op_create(names=[name]), rig.op_activate(None) if version < (2, 0) else rig.op_get(None)])
+            out.append([rig.op_create_key_pair()] + tail)
+        else:
+            out.append([rig.op_query()])
+            out.append([rig.op_create(names=[name])])
+    frames = []
+    for batch in out:
+        try:
+            data = rig.encode_request(rig.build_request(version, batch), version)
+            rig.decode_request(data)
+            frames.append((batch, data))
+        except Exception:
+            pass
+    return frames
+
+
+def run_concurrent(ctx, case):
+    rng = ctx.rng()
+    rig.install_clock(rig.VClock(step=0))
+    nclients = rng.choice((2, 3, 3, 4))
+    clients = rng.sample(CONC_CLIENTS, nclients)
+    scripts = [script(rng, ci, version, rng.randrange(3, 7)) for ci, (ident, version) in enumerate(clients)]
+    with rig.scratch_dir() as d:
+        # alone: every request of every script succeeds (otherwise it is not part of the concurrent run)
+        twin = rig.Server(d + '/twin.sqlite')
+        keep = []
+        try:
+            for ci, (ident, version) in enumerate(clients):
+                ok = []
+                for batch, data in scripts[ci]:
+                    r = twin.send_bytes(data, ident)
+                    if r.error is None and r.items and all(it['status'] == 0 for it in r.items):
+                        ok.append((batch, data))
+                    else:
+                        ctx.count('concurrent_script_request_not_successful_alone')
+                        ctx.cell('alone-fails', '%d.%d' % version, '+'.join(o[0].name.lower() for o in batch),
+                                 str(r.brief())[:80] if r.error is None else type(r.error).__name__)
+                keep.append(ok)
+        finally:
+            twin.close()
+        if sum(len(k) for k in keep) < 2:
+            return
+        srv = rig.Server(d + '/db.sqlite')
+        yrng = random.Random(rng.getrandbits(32))
+        prob = rng.choice((0.03, 0.1, 0.2))
+        yields = [0]
+        mon = sys.monitoring
+        tool = 4
+        try:
+            mon.use_tool_id(tool, 'kv-c13')
+        except ValueError:
+            pass
+
+        def on_line(code, line):
+            if '/kmip/' not in code.co_filename:
+                return mon.DISABLE
+            if yrng.random() < prob:
+                yields[0] += 1
+                time.sleep(0)
+        results = [[] for _ in clients]
+        caps = {}
+
+        def client_thread(ci):
+            ident, version = clients[ci]
+            for batch, data in keep[ci]:
+                try:
+                    results[ci].append(srv.send_bytes(data, ident))
+                except BaseException as e:      # noqa
+                    results[ci].append(e)
+        mon.register_callback(tool, mon.events.LINE, on_line)
+        mon.set_events(tool, mon.events.LINE)
+        old_si = sys.getswitchinterval()
+        sys.setswitchinterval(1e-5)
+        ctx.cap.reset()
+        threads = [threading.Thread(target=client_thread, args=(ci,)) for ci in range(nclients)]
+        try:
+            for t in threads:
+                t.start()
+            for t in threads:
+                t.join(60)
+        finally:
+            sys.setswitchinterval(old_si)
+            mon.set_events(tool, 0)
+            mon.register_callback(tool, mon.events.LINE, None)
+            try:
+                mon.free_tool_id(tool)
+            except Exception:
+                pass
+        alive = any(t.is_alive() for t in threads)
+        srv.close()
+        ctx.ev()
+        ctx.count('concurrent_histories')
+        ctx.count('concurrent_yields_injected', yields[0])
+        if alive:
+            ctx.unsure('a client thread of a concurrent C13 history did not finish within 60 s')
+            return
+        versions = sorted(set('%d.%d' % v for _, v in clients))
+        ctx.cell('concurrent', nclients, '+'.join(versions))
+        detail = {'clients': clients, 'requests': [[dt.hex()[:300] for _, dt in k] for k in keep]}
+        for ci, (ident, version) in enumerate(clients):
+            for (batch, data), res in zip(keep[ci], results[ci]):
+                ctx.count('concurrent_requests_checked')
+                opname = '+'.join(o[0].name.lower() for o in batch)
+                if isinstance(res, BaseException):
+                    ctx.violation('concurrent|escaped|%s' % type(res).__name__,
+                                  'a request that succeeds alone makes the request path raise %s: %s when other clients '
+                                  'are active' % (type(res).__name__, str(res)[:200]), detail)
+                elif res.error is not None:
+                    ctx.violation('concurrent|%s|%s' % ('response-unencodable' if res.error_stage == 'encode'
+                                                        else 'request-level', type(res.error).__name__),
+                                  'a %s request of a %d.%d client that succeeds alone makes %s raise %s: %s when other '
+                                  'clients (versions %s) are active'
+                                  % (opname, version[0], version[1],
+                                     'the response encoding' if res.error_stage == 'encode' else 'process_request',
+                                     type(res.error).__name__, str(res.error)[:200], versions), detail)
+                elif any(it['status'] != 0 and it['reason'] == rig.GENERAL_FAILURE for it in res.items):
+                    exc = ctx.cap.last_exc or ('unknown', '', 'unknown')
+                    ctx.violation('concurrent|general-failure',
+                                  'a %s request of a %d.%d client that succeeds alone is answered General Failure when other '
+                                  'clients (versions %s) are active (last logged exception %s in %s)'
+                                  % (opname, version[0], version[1], versions, exc[0], exc[2]), detail)
+                else:
+                    ctx.count('concurrent_requests_clean')
+
+
 def run_case(ctx, case):
+    if 'conc' in case:
+        return run_concurrent(ctx, case)
     rng = ctx.rng()
     rig.install_clock(rig.VClock(step=1))
     with rig.scratch_dir() as d:
